@@ -146,10 +146,12 @@ def r2(ctx: Ctx) -> None:
             # pairs?
             if st[2][0] == "c" and any(contains(st[2], ("g", "combinations")) for _ in [0]):
                 pass
+            # everything the loop body asserts about the element (one assertion of a conjunction, or one assertion per conjunct)
+            conj = set()
             for a in asserts:
-                conj = set(a[1][1]) if a[1][0] == "and" else {a[1]}
-                if _inside_both_corners(conj, v):
-                    inside_ok = True
+                conj |= set(a[1][1]) if a[1][0] == "and" else {a[1]}
+            if _inside_both_corners(conj, v):
+                inside_ok = True
         if st[0] == "for" and contains(st[2], ("g", "combinations")) and _all_lists(st[2]):
             comb = atoms_of(st[2], lambda x: x[0] == "c" and x[1] == ("g", "combinations"))
             if comb and len(comb[0][2]) == 2 and comb[0][2][1] == k_num(2) and st[1][0] == "tuple" and len(st[1][1]) == 2:
